@@ -1,6 +1,7 @@
 package main
 
 import (
+	"reflect"
 	"fmt"
 	"go/token"
 	"go/types"
@@ -408,10 +409,111 @@ func (in *Interp) loadPtr(st *State, p Ptr, pos token.Pos) Value {
 	arr := st.load(Ptr{Obj: p.Obj, Path: p.Path}).(Array)
 	elems := arr.E[p.SymOff : p.SymOff+p.SymN]
 	if _, ok := elems[0].(*Term); !ok {
-		i := int(in.concretize(st, p.Sym, "load through symbolic index"))
-		return elems[i]
+		return in.loadGrouped(st, elems, p.Sym)
 	}
 	return in.selectElem(elems, p.Sym)
+}
+
+// loadGrouped reads elems[idx] for a symbolic idx when the elements are not
+// bit-vector terms (function values, pointers, structs): the indices are
+// partitioned by element value and the path forks once per distinct value (a
+// dispatch table of 256 entries with three distinct handlers costs three
+// children, not 256).
+func (in *Interp) loadGrouped(st *State, elems []Value, idx *Term) Value {
+	if v, ok := st.concr[idx.id]; ok {
+		return elems[int(v.Int64())]
+	}
+	if idx.IsConst() {
+		return elems[int(idx.C.Int64())]
+	}
+	type group struct {
+		val  Value
+		idxs []int
+	}
+	var groups []*group
+	for i, e := range elems {
+		var g *group
+		for _, c := range groups {
+			if reflect.DeepEqual(c.val, e) {
+				g = c
+				break
+			}
+		}
+		if g == nil {
+			if len(groups) >= in.maxConcr {
+				i := int(in.concretize(st, idx, "load through symbolic index"))
+				return elems[i]
+			}
+			g = &group{val: e}
+			groups = append(groups, g)
+		}
+		g.idxs = append(g.idxs, i)
+	}
+	if len(groups) == 1 {
+		return groups[0].val
+	}
+	// the choice made at the fork is remembered per (index term, partition of the indices):
+	// another table indexed by the same term partitions differently and forks again
+	sig := make([]byte, 0, 2*len(elems)+12)
+	sig = append(sig, fmt.Sprintf("%d:", idx.id)...)
+	member := make([]int, len(elems))
+	for gi, g := range groups {
+		for _, i := range g.idxs {
+			member[i] = gi
+		}
+	}
+	for _, gi := range member {
+		sig = append(sig, byte('A'+gi%26), byte('a'+gi/26))
+	}
+	key := string(sig)
+	tf := in.tf
+	condOf := func(g *group) *Term {
+		c := tf.Bool(false)
+		for k := 0; k < len(g.idxs); {
+			j := k
+			for j+1 < len(g.idxs) && g.idxs[j+1] == g.idxs[j]+1 {
+				j++
+			}
+			lo, hi := tf.ConstU(idx.W, uint64(g.idxs[k])), tf.ConstU(idx.W, uint64(g.idxs[j]))
+			var r *Term
+			if k == j {
+				r = tf.Cmp("=", idx, lo)
+			} else {
+				r = tf.LAnd(tf.Cmp("bvule", lo, idx), tf.Cmp("bvule", idx, hi))
+			}
+			c = tf.LOr(c, r)
+			k = j + 1
+		}
+		return c
+	}
+	// decide-before-mutate: a group whose condition is already implied is taken without forking
+	fr := forkReq{why: "load through symbolic index (by distinct element)"}
+	for _, g := range groups {
+		g := g
+		fr.conds = append(fr.conds, condOf(g))
+		rep := g.idxs[0]
+		single := len(g.idxs) == 1
+		fr.apply = append(fr.apply, func(s *State) {
+			if single {
+				s.concr[idx.id] = big.NewInt(int64(rep))
+			} else {
+				s.grouped = setGrouped(s.grouped, key, rep)
+			}
+		})
+	}
+	if rep, ok := st.grouped[key]; ok {
+		return elems[rep]
+	}
+	panic(fr)
+}
+
+func setGrouped(m map[string]int, k string, v int) map[string]int {
+	n := make(map[string]int, len(m)+1)
+	for a, b := range m {
+		n[a] = b
+	}
+	n[k] = v
+	return n
 }
 
 func (in *Interp) storePtr(st *State, p Ptr, v Value, pos token.Pos) {
